@@ -223,6 +223,7 @@ struct Rec {
     unwinds: u64,
     snapshots: u64,
     bound_calls: u64,
+    bound_send_invalid: u64,
     panics: Vec<u64>,
     notes: Vec<String>,
 }
@@ -240,6 +241,7 @@ impl Rec {
             unwinds: 0,
             snapshots: 0,
             bound_calls: 0,
+            bound_send_invalid: 0,
             panics: vec![],
             notes: vec![],
         }
@@ -1104,6 +1106,9 @@ fn bound_probe(sim: &mut Sim, rng: &mut Rng, rt: &tokio::runtime::Runtime, depos
     if let Err(m) = check_balance(&sim.w) {
         sim.rec.failures.push(format!("after winding the bound transaction: {}", m));
     }
+    for t in &b.transactions {
+        t.on_chain_reorganization(&mut sim.utxo, true);
+    }
     if sim.w.nfts.is_empty() {
         sim.rec.failures.push("the wallet did not record the NFT it received".to_string());
         return;
@@ -1115,6 +1120,13 @@ fn bound_probe(sim: &mut Sim, rng: &mut Rng, rt: &tokio::runtime::Runtime, depos
         Err(e) => sim.rec.notes.push(format!("create_send_bound_transaction panicked: {}", panic_msg(e))),
         Ok(Err(_)) => sim.rec.failures.push("create_send_bound_transaction refused an NFT the wallet holds".to_string()),
         Ok(Ok(stx)) => {
+            // a transfer by the holder validates against the ledger that holds the NFT (c1271fb)
+            let mut v = stx.clone();
+            v.generate(&me, 0, 0);
+            if !v.validate(&sim.utxo, &sim.chain, true) {
+                sim.rec.bound_send_invalid += 1;
+                sim.rec.failures.push("the NFT transfer built by the holder does not validate against the ledger".to_string());
+            }
             let ks: Vec<SaitoUTXOSetKey> = stx.from.iter().map(|s| s.utxoset_key).collect();
             if ks != vec![nft.slip1, nft.slip2, nft.slip3] {
                 sim.rec.failures.push("create_send_bound_transaction does not spend the three slips of the NFT".to_string());
@@ -1161,7 +1173,13 @@ fn case_chain(rng: &mut Rng, dbg: bool, len: usize, rt: &tokio::runtime::Runtime
             sim.unwind(b, gp, true);
         } else if r < 94 {
             let latest = sim.top();
-            let (pays, fee) = pick_request(rng, &sim.w, latest, gp);
+            let (mut pays, fee) = pick_request(rng, &sim.w, latest, gp);
+            if rng.chance(1, 40) {
+                // around the u8::MAX limit of outputs (one of them is the change)
+                let n = *rng.pick(&[253usize, 254, 255, 256]);
+                let unit = if sim.w.get_available_balance() > 1000 { 1 } else { 0 };
+                pays = vec![unit; n];
+            }
             let mut keys: Vec<SaitoPublicKey> =
                 pays.iter().map(|_| if rng.chance(1, 2) { pk2 } else { pk3 }).collect();
             if rng.chance(1, 40) {
@@ -1913,6 +1931,7 @@ fn main() {
         summary.count("unwinds", &format!("{}", rec.unwinds.min(4)));
         summary.count("snapshots", &format!("{}", rec.snapshots.min(3)));
         summary.count("bound_calls", &format!("{}", rec.bound_calls.min(3)));
+        summary.count("bound_send_invalid", &format!("{}", rec.bound_send_invalid));
         for p in &rec.panics {
             summary.count("panic_site", &format!("{}", p));
         }
